@@ -140,6 +140,24 @@ CLAIMED.update({
         design="3/C01"),
 })
 
+CLAIMED.update({
+    "C15": dict(
+        engine="kani",
+        technique="Kani/CBMC bounded model checking of the marshal writer (ValueObj::into_bytes scalar arms over their whole machine domain; str_into_bytes per UTF-8 width "
+                  "pattern; strs_into_bytes, raw_string_into_bytes) against a reference model of CPython's unmarshaller written in the harness, of the .pyc magic header, and of the "
+                  "reader's primitives for totality on every buffer up to a stated length; plus a source-level link that every type code the writer emits has an arm in the reader",
+        category="other",
+        text="Writer: for every i32, u64 (2**31 and above as TYPE_LONG), f64 bit pattern (signed zero, infinities, NaN payloads), bool and None, and for every string of each "
+             "listed UTF-8 width pattern, the SAT solver shows that the bytes are a well-formed marshal object that CPython's r_object (reference model in the harness) reads back "
+             "as the same value, that ASCII-only type codes are used only for ASCII strings, and that length fields are byte lengths. Reader: deserialize_u32 and deserialize_bytes "
+             "return Ok/Err without panicking for every buffer of up to 7 (quick) / 9 (thorough) bytes and consume exactly what they return; every 16-bit magic word is either a "
+             "known 3.x version or reported unknown. Deserializer::deserialize_const, CodeObj::from_bytes/from_pyc as wholes, name tuples in the quick tier, nested code "
+             "objects and whole-program files are not decided (Result<ValueObj, _> is out of CBMC's reach: > 400 s of symex for a 5-byte buffer).",
+        note="Trusts Kani/CBMC, the marshal reference in props/c15.py (i l g T F N z Z u s), and three stubs: std::fmt::format, str::is_ascii (byte loop of the same meaning), the "
+             "reader's error constructors (message text). The reader-accepts/<code> obligations are a source scan, not a solver verdict, and say so in the evidence.",
+        design="3/C15"),
+})
+
 NOT_APPLICABLE = {}
 
 
